@@ -319,5 +319,60 @@ def r17_5(ctx):
     return r
 
 
+ICE_STOP = "transports::ice::IceTransport::stop"
+ICE_RELEASE_FIELDS = ("sockets", "tcp_listeners", "tcp_streams", "shared_tcp_regs", "shared_udp_regs", "turn_clients", "shared_udp_socket")
+
+
+def r17_6(ctx):
+    """IceTransport::stop() is the one place that gives back the sockets, listeners, TCP streams, TURN clients and
+    shared-port registrations a connection holds (they live in the gatherer, which the application-held handle keeps
+    alive). Every one of them must be released on EVERY path through stop(): an early return for a "nothing
+    happened yet" state misses the ports that the direct-RTP offer path binds without touching the ICE state."""
+    r = RuleResult("R17.6", "K4", "IceTransport::stop releases every socket / listener / TURN / shared-port holder on every path")
+    b = ctx.body(ICE_STOP)
+    r.scope.append(ICE_STOP)
+    rets = [i for i, blk in enumerate(b.blocks) if blk["t"]["k"] == "ret" and i not in b.cleanup]
+    # the gatherer's resource fields, from its type: anything holding sockets / listeners / streams / TURN clients / registrations
+    adt = None
+    for name, a in ctx.facts.adts.items():
+        if name.endswith("ice::IceGatherer"):
+            adt = a
+    if adt is None:
+        raise core.CheckerError("R17.6: IceGatherer type not found")
+    holders = []
+    for v in adt["variants"]:
+        for f in v["fields"]:
+            ty = f["ty"]
+            if any(k in ty for k in ("UdpSocket", "TcpListener", "TcpStream", "TurnClient", "IceSocketWrapper", "SharedUdp", "SharedTcp", "Registration")) \
+                    and any(k in ty for k in ("Mutex<", "RwLock<")):
+                holders.append(f["n"])
+    for f in ICE_RELEASE_FIELDS:
+        if f not in holders:
+            holders.append(f)
+    n = 0
+    for f in sorted(set(holders)):
+        rel = [bi for bi, t, p in b.calls() if p and p.endswith(("::clear", "::take")) and t["a"] and mir.has_field(b.term_operand(t["a"][0]), f)]
+        rel += [bi for bi, si, st, v in core.lock_write_sites(b, f, methods=("::lock", "::write")) if v[0] == "agg" and v[2] == "None"]
+        if not rel:
+            r.violate(ICE_STOP, "release:%s" % f, b.where(0), "stop() never releases gatherer.%s" % f)
+            continue
+        n += 1
+        if all(core.must_pass(b, rb, rel) for rb in rets):
+            r.ok({"field": f, "released at": b.where(rel[0]), "on": "every path"})
+        else:
+            p_ = b.path_to([0], rets[0], cut_blocks=set(rel))
+            r.violate(ICE_STOP, "release:%s" % f, b.where(rel[0]),
+                      "stop() can return without releasing gatherer.%s: the port / registration stays bound while the application holds the connection" % f,
+                      core.describe_path(b, p_) if p_ else "")
+    closed = [bi for bi, t, p in b.calls() if p and p.endswith("watch::Sender::<T>::send") and t["a"] and mir.has_field(b.term_operand(t["a"][0]), "state")
+              and mir.has(b.term_operand(t["a"][1]), lambda x: x[0] == "agg" and x[2] == "Closed")]
+    if closed and all(core.must_pass(b, rb, closed) for rb in rets):
+        r.ok({"state": "Closed published on every path"})
+    else:
+        r.violate(ICE_STOP, "state:Closed", b.where(0), "stop() can return without publishing IceTransportState::Closed")
+    r.need("resource holders released by stop()", n, 7)
+    return r
+
+
 def run(ctx):
-    return [r17_1(ctx), r17_2(ctx), r17_3(ctx), r17_4(ctx), r17_5(ctx)]
+    return [r17_1(ctx), r17_2(ctx), r17_3(ctx), r17_4(ctx), r17_5(ctx), r17_6(ctx)]
